@@ -4,9 +4,10 @@ output to compare with; the plug-in evaluates the property's decidable form on w
 
 Lines (tab separated):
   det.begin  <label> <n>
-  det.block  <height> <ok|empty> <txOk> <txFail> <hashA> <hashB> <hashChildA> <hashChildB>
+  det.block  <height> <ok|empty> <txOk> <txFail> <hashA> <hashB> <hashChildA> <hashChildB> [<hashC>]
       hashes of (ordered dump of every IAVL store ‖ all bank balances ‖ app hash ‖ tx + EndBlock results) after the
-      block, on two in-process instances and in two fresh OS processes. Monitor `replay_equal`: all four are equal
+      block, on two in-process instances (B after A and after a different warm-up workload in the same process; C,
+      thorough only, after a longer unrelated history) and in two fresh OS processes. Monitor `replay_equal`: all four are equal
       (and none is missing).
   det.site   <name> <ok> <runs> <distinct>
       the named function / block hook was run `runs` times in one process on identical inputs and produced `distinct`
@@ -33,10 +34,10 @@ def replayEqual (hs : List String) : Bool :=
 def handle (st : St) (seq : String) (f : List String) : St × List String :=
   match f with
   | ["det.begin", _, _] => ({ blocks := 0 }, [])
-  | ["det.block", h, _, ok, fail, a, b, ca, cb] =>
+  | "det.block" :: h :: _ :: ok :: fail :: a :: b :: ca :: cb :: more =>
     match parseNat? h, parseNat? ok, parseNat? fail with
     | some _, some _, some _ =>
-      if replayEqual [a, b, ca, cb] then ({ st with blocks := st.blocks + 1 }, [])
+      if more.length ≤ 1 && replayEqual ([a, b, ca, cb] ++ more) then ({ st with blocks := st.blocks + 1 }, [])
       else ({ st with blocks := st.blocks + 1 }, [s!"MON\t{seq}\treplay_equal"])
     | _, _, _ => (st, [s!"BAD\t{seq}\tdet.block fields"])
   | ["det.site", _, _, runs, distinct] =>
